@@ -477,3 +477,10 @@ package hclsyntax
 //@ loopall invariant p.peeker == old(p.peeker) && len(p.peeker.IncludeNewlinesStack) == atentry(len(p.peeker.IncludeNewlinesStack))
 //@ loopall invariant srcBytes: forall q *byte :: { deref(q) } existed(q) ==> deref(q) == old(deref(q))
 //@ loop 1 invariant decoded: len(diags) > 0 || litDecodes - old(litDecodes) == quotedRead - old(quotedRead)
+
+// For expressions: the marks of the collection value are on the result on every path; the only
+// exception are returns of cty.DynamicVal accompanied by at least one diagnostic (the error paths).
+// verif:func (*ForExpr).Value
+//@ nosafety
+//@ ensures marks: forall k iface :: { marked(ret0, k) } marked(exprVal(old(e.CollExpr), ctx), k) ==> marked(ret0, k) || (ret0 == cty.DynamicVal && len(ret1) > 0)
+//@ loopall invariant len(marks) >= 1 && marks[0] == collMarks
